@@ -8,6 +8,7 @@ is selected exactly when its own report says so) and compared with the Coq
 model (C18.Run.check_case).
 """
 import json
+import os
 import re
 
 import lib
@@ -535,6 +536,8 @@ def mk_chain(rng, R, n, form=None, malformed=False):
         names.add(f[0])
         fs.append(f)
     form = form or rng.choice(["filter", "filter", "methods", "methods", "call"])
+    if form == "methods":
+        fs = [f for f in fs if f[0] != "unknown"] or [["data"]]
     if form == "call":
         ids = [f for f in fs if f[0] == "identity"]
         fs = [f for f in fs if f[0] != "identity"] + ids
@@ -1155,11 +1158,12 @@ def run(chk, model_ok):
 
     ncorr = 0
     if model_ok and lits:
-        bad = lib.coq_bad_indices("C18", REQ, "check_case", lits, chunk=6)
+        old = bool(os.environ.get("C18_OLD"))   # development aid: the model of the code before the fixes
+        bad = lib.coq_bad_indices("C18", REQ, "check_case_old" if old else "check_case", lits, chunk=6)
         ncorr = sum(len(js) for _, js in lit_index)
         for b in bad[:12]:
             i, js = lit_index[b]
-            out = lib.coq_eval(REQ, f"bad_queries {lits[b]}")
+            out = lib.coq_eval(REQ, f"{'bad_queries_old' if old else 'bad_queries'} {lits[b]}")
             m = re.search(r"=\s*\[(.*?)\]", out)
             idxs = [int(x.strip().rstrip("%nat")) for x in m.group(1).split(";") if x.strip()] if m else []
             for k in idxs[:6]:
